@@ -46,17 +46,30 @@
  * Every schedule case re-seeds the entropy streams from a hash of its spec and the run's seed (option "N<k>" only varies that hash):
  * ECDSA signature lengths vary between cases and repetitions of one schedule, and --case reproduces them.
  *
+ * Mixed-version pairs: <ver> = "<client>~<server>" configures the two endpoints differently ("dtls1.2" enables DTLS 1.2 and 1.0, "dtls1.0"
+ * only 1.0); both negotiate 1.0. With "dtls1.2~dtls1.0" every further copy of a ClientHello (duplicate, retransmission, replay) carries
+ * record version 1.2 to a server that has meanwhile chosen 1.0. Schedules, kinds, replay phase and oracles are the same as for alike peers.
+ *
  * ECDHE-ECDSA cases also start from an empty ephemeral-key cache and (unless they resume by session id) an empty server session cache.
  *
  * Case specs (also accepted by --case; several specs separated by ';' are run in sequence in one process):
- *   S/<ver>/<suite>/<pmtu>/<kind>/<class>/<fates>/<options: T<step><C|S> spurious timer, E<C|S> eager writer, N<k> entropy variation>
+ *   S/<ver or cver~sver>/<suite>/<pmtu>/<kind>/<class>/<fates>/<options: T<step><C|S> spurious timer, E<C|S> eager writer, N<k> entropy variation>
  *   R/<ver>/<suite>/<pmtu>/<kind>/<est>/<mode>/<rec>/<rec2>/<pos>      (gap-replay: <gap>/<variant*2+direction>/0)
  */
 #include "mx.h"
 
 enum { K_FULL = 0, K_RESUMED, K_CAUTH, K_TKFULL, K_TKRES, NKIND };   /* K_TKFULL: full handshake that issues an RFC 5077 ticket; K_TKRES: resumption by ticket */
 static const char *kindname[] = { "full", "resumed", "client-auth", "ticket-full", "ticket-resumed" };
-typedef struct { int ver; uint16_t suite; int pmtu; int kind; } cfg_t;
+typedef struct { int ver; uint16_t suite; int pmtu; int kind; int sver; } cfg_t;   /* ver: what the client enables, sver: what the server enables (MX_DTLS12 = DTLS 1.2 and 1.0, MX_DTLS10 = DTLS 1.0 only) */
+/* version token of specs and keys: "dtls1.2" when both peers are configured alike, "dtls1.2~dtls1.0" = client configuration ~ server configuration */
+static const char *vn(const cfg_t *c)
+{
+    static char b[4][40]; static int k; char *o = b[k++ & 3];
+    if (c->sver == c->ver) snprintf(o, 40, "%s", mx_vername[c->ver]); else snprintf(o, 40, "%s~%s", mx_vername[c->ver], mx_vername[c->sver]);
+    return o;
+}
+/* version number of distinct-case strings (unchanged for alike peers) */
+#define VERID(c) ((c)->ver + ((c)->sver != (c)->ver ? 16 * ((c)->sver + 1) : 0))
 
 #define N_PROGRESS 12          /* timeout rounds allowed after the schedule stopped interfering */
 #define LIVELOCK_ROUNDS 80     /* rounds allowed after the schedule stopped interfering */
@@ -69,7 +82,7 @@ typedef struct { unsigned char *d; int n, dir, idx, due, copy, swap, late, ser; 
 typedef struct { unsigned char *d; int n, dir, epoch, type, isdg, nrec; unsigned long long seq; } cap_t;
 
 typedef struct {
-    cfg_t cfg; mx_cfg mc; const char *cls; char spec[512]; char keytail[96];
+    cfg_t cfg; mx_cfg mc, smc; const char *cls; char spec[512]; char keytail[96];
     const char *fates; int nf;
     struct { int step, ep, fired; } sp[8]; int nsp;
     mx_ep C, S; int sExists, sResumedComplete; sslSessionId_t *sid, *ownSid;
@@ -250,7 +263,7 @@ static void deliver(dg_t *g)
 {
     mx_ep *e = g->dir == 0 ? &G.S : &G.C;
     if (g->dir == 0 && !G.sExists) {
-        if (mx_new_server(&G.S, &G.mc) < 0) { vf_incon("server session creation failed in %s", G.spec); G.failed = 1; return; }
+        if (mx_new_server(&G.S, &G.smc) < 0) { vf_incon("server session creation failed in %s", G.spec); G.failed = 1; return; }
         G.S.on_app = on_app; G.sExists = 1;
     }
     if (e->dead || G.failed) return;
@@ -267,6 +280,10 @@ static void deliver(dg_t *g)
       G.maxEpoch[g->dir] = top; }
     if (g->copy) G.dupDelivered++;
     if (g->late) G.roundsSinceInterf = 0, G.quietT = 0;
+    /* measured, not assumed: handshake datagrams whose record version is above the version their receiver has negotiated by then
+       (further copies of the ClientHello of a DTLS 1.2-capable client at a server that chose 1.0) */
+    if (g->n > 2 && g->d[0] == 22 && g->d[1] == 0xfe && g->d[2] == 0xfd && VersionNegotiationComplete(e->ssl) && NGTD_VER(e->ssl, v_dtls_1_0))
+        vf_statf(1, "handshake_datagrams_above_negotiated_version_to_%s", e->role == MX_SERVER ? "server" : "client");
     int rc = dg_feed(e, g->d, g->n);
     G.step++;
     TRACE("  step %d: dg#%d%s -> %s rc=%d hsState %d->%d hsDone=%d\n", G.step, g->idx, g->copy ? "(dup)" : "", e->name, rc, before, e->ssl->hsState, e->hsDone);
@@ -344,8 +361,9 @@ static void sim_init(const cfg_t *c, const char *cls, const char *fates, const c
     memset(&G, 0, sizeof G);
     G.cfg = *c; G.cls = cls; G.fates = fates; G.nf = (int) strlen(fates); G.verbose = vf_verbose;
     G.mc = (mx_cfg) { .ver = c->ver, .suite = c->suite, .clientAuth = c->kind == K_CAUTH, .useTicket = c->kind == K_TKFULL || c->kind == K_TKRES };
-    snprintf(G.spec, sizeof G.spec, "S/%s/%04x/%d/%s/%s/%s/%s", mx_vername[c->ver], c->suite, c->pmtu, kindname[c->kind], cls, fates, spur ? spur : "");
-    snprintf(G.keytail, sizeof G.keytail, "%s:%s:%s:%s", mx_vername[c->ver], famname(c->suite), kindname[c->kind], cls);
+    G.smc = G.mc; G.smc.ver = c->sver;
+    snprintf(G.spec, sizeof G.spec, "S/%s/%04x/%d/%s/%s/%s/%s", vn(c), c->suite, c->pmtu, kindname[c->kind], cls, fates, spur ? spur : "");
+    snprintf(G.keytail, sizeof G.keytail, "%s:%s:%s:%s", vn(c), famname(c->suite), kindname[c->kind], cls);
     /* options field: T<step><C|S> spurious timer expiry, E<C|S> eager writer on that side, N<k> entropy variation (only hashed) */
     for (const char *p = spur; p && *p; ) {
         if (*p == 'T' && G.nsp < 8) { char *end; G.sp[G.nsp].step = (int) strtol(p + 1, &end, 10); G.sp[G.nsp].ep = *end == 'S'; G.nsp++; p = *end ? end + 1 : end; }
@@ -485,7 +503,7 @@ static void run_schedule_case(const cfg_t *c, const char *cls, const char *fates
     vf_stat("cases", 1); vf_stat("schedules", 1); vf_statf(1, "schedules_%s", cls);
     vf_stat("retransmitted_flights", G.retxFlights); vf_stat("retransmitted_datagrams", G.retxDg);
     vf_stat("datagrams_sent", G.sendIdx); vf_stat("datagrams_dropped", G.dropped); vf_stat("duplicate_copies_delivered", G.dupDelivered);
-    vf_distinct("S/%d/%04x/%d/%d/%s/%s", c->ver, c->suite, c->pmtu, c->kind, sig, spur ? spur : "");
+    vf_distinct("S/%d/%04x/%d/%d/%s/%s", VERID(c), c->suite, c->pmtu, c->kind, sig, spur ? spur : "");
     if (G.retxFlights) vf_stat("schedules_with_retransmission", 1);
     TRACE("END %s ok=%d rounds=%d timeouts=%d retx=%d sent=%d\n", G.spec, ok, G.round, G.totT, G.retxFlights, G.sendIdx);
     sim_free();
@@ -501,7 +519,7 @@ static void cfg_prepare(cfgstate_t *cs)
     if (cs->ready) return;
     cs->ready = 1;
     /* dry run in a child: a crash in a clean handshake must not take the shard down */
-    char spec[200]; snprintf(spec, sizeof spec, "S/%s/%04x/%d/%s/setup//", mx_vername[cs->c.ver], cs->c.suite, cs->c.pmtu, kindname[cs->c.kind]);
+    char spec[200]; snprintf(spec, sizeof spec, "S/%s/%04x/%d/%s/setup//", vn(&cs->c), cs->c.suite, cs->c.pmtu, kindname[cs->c.kind]);
     if (!vf_case) {
         int sv = vf_shard; vf_shard = -1;
         int rc = vf_fork_case(cfg_probe, cs, "c16-setup", spec, 120);
@@ -519,7 +537,7 @@ static void cfg_prepare_body(cfgstate_t *cs)
         matrixSslNewSessionId(&cs->sid, NULL);
         memset(g_rank, 0xff, sizeof g_rank); g_record_rank = 1; g_nrank[0] = g_nrank[1] = 0;
         sim_init(&full, "setup", "", "", cs->sid);
-        if (!sim_handshake()) { if (!G.nclauses) vf_incon("set-up handshake failed for %s %04x pmtu %d", mx_vername[cs->c.ver], cs->c.suite, cs->c.pmtu); return; }
+        if (!sim_handshake()) { if (!G.nclauses) vf_incon("set-up handshake failed for %s %04x pmtu %d", vn(&cs->c), cs->c.suite, cs->c.pmtu); return; }
         sim_clean_exchange(900, "set-up");
         sim_free();
     }
@@ -527,8 +545,10 @@ static void cfg_prepare_body(cfgstate_t *cs)
     sim_init(&cs->c, "setup", "", "", cs->sid);
     int ok = sim_handshake();
     g_record_rank = 0;
-    if (!ok || G.nclauses) { if (!G.nclauses) vf_incon("clean handshake failed for %s %04x pmtu %d %s", mx_vername[cs->c.ver], cs->c.suite, cs->c.pmtu, kindname[cs->c.kind]); return; }
-    if ((cs->c.kind == K_RESUMED || cs->c.kind == K_TKRES) && !(G.S.ssl->flags & SSL_FLAGS_RESUMED)) { vf_incon("session was not resumed for %s %04x", mx_vername[cs->c.ver], cs->c.suite); return; }
+    if (!ok || G.nclauses) { if (!G.nclauses) vf_incon("clean handshake failed for %s %04x pmtu %d %s", vn(&cs->c), cs->c.suite, cs->c.pmtu, kindname[cs->c.kind]); return; }
+    if ((cs->c.kind == K_RESUMED || cs->c.kind == K_TKRES) && !(G.S.ssl->flags & SSL_FLAGS_RESUMED)) { vf_incon("session was not resumed for %s %04x", vn(&cs->c), cs->c.suite); return; }
+    /* peers that enable different version sets must have met at DTLS 1.0 */
+    if (cs->c.sver != cs->c.ver && !(NGTD_VER(G.S.ssl, v_dtls_1_0) && NGTD_VER(G.C.ssl, v_dtls_1_0))) { vf_incon("mixed-version pair %s %04x did not negotiate DTLS 1.0", vn(&cs->c), cs->c.suite); return; }
     cs->ndg = G.sendIdx; cs->nsteps = G.step;
     memcpy(cs->rank, g_rank, sizeof g_rank);
     sim_free();
@@ -588,7 +608,7 @@ static void batch_flush(void)
             int rc = B.n == 1 ? 1 : batch_run_buffered();
             if (rc) for (int i = 0; i < B.n; i++) {
                 B.only = i;
-                snprintf(spec, sizeof spec, "S/%s/%04x/%d/%s/%s/%s/%s", mx_vername[c->ver], c->suite, c->pmtu, kindname[c->kind], B.k[i].cls, B.k[i].fates, B.k[i].spur);
+                snprintf(spec, sizeof spec, "S/%s/%04x/%d/%s/%s/%s/%s", vn(c), c->suite, c->pmtu, kindname[c->kind], B.k[i].cls, B.k[i].fates, B.k[i].spur);
                 vf_fork_case(batch_child, NULL, "c16-schedule", spec, 60);
             }
         }
@@ -613,7 +633,7 @@ static void add_case(cfgstate_t *cs, const char *cls, const char *fates, const c
     }
     snprintf(k->fates, sizeof k->fates, "%s", fates);
     cls = k->cls; spur = k->spur;
-    if (vf_shard == 0 && (g_nsamples++ % 1777) == 400) vf_sample("%s %04x pmtu %d %s %s schedule \"%s\" %s", mx_vername[cs->c.ver], cs->c.suite, cs->c.pmtu, kindname[cs->c.kind], cls, fates, spur ? spur : "");
+    if (vf_shard == 0 && (g_nsamples++ % 1777) == 400) vf_sample("%s %04x pmtu %d %s %s schedule \"%s\" %s", vn(&cs->c), cs->c.suite, cs->c.pmtu, kindname[cs->c.kind], cls, fates, spur ? spur : "");
 }
 
 static int g_L = 16, g_delays = 3, g_spsteps = 16;
@@ -760,7 +780,7 @@ static void replay_child(void *arg)
     sim_final_checks(D0, D0 + r->K, "after a replay");
     sim_clean_exchange(600, "after a replay");
     vf_stat("cases", 1); vf_stat("replays", 1); vf_statf(1, "replays_%s", modename[r->mode]);
-    vf_distinct("R/%d/%04x/%d/%d/%d/%d/%d.%d.%llu.%d/%d/%d", G.cfg.ver, G.cfg.suite, G.cfg.pmtu, G.cfg.kind, r->est, r->mode, c->dir, c->epoch, c->seq, c->isdg, r->mode == 3 ? r->rec2 : -1, r->pos);
+    vf_distinct("R/%d/%04x/%d/%d/%d/%d/%d.%d.%llu.%d/%d/%d", VERID(&G.cfg), G.cfg.suite, G.cfg.pmtu, G.cfg.kind, r->est, r->mode, c->dir, c->epoch, c->seq, c->isdg, r->mode == 3 ? r->rec2 : -1, r->pos);
 }
 
 static long g_scenario;
@@ -797,7 +817,7 @@ static void gap_child(void *arg)
     }
     sim_clean_exchange(600, "after a sequence-number gap and replays");
     vf_stat("cases", 1); vf_stat("replays", 1); vf_statf(1, "replays_%s", modename[4]);
-    vf_distinct("G/%d/%04x/%d/%d/%d/%d/%d", G.cfg.ver, G.cfg.suite, G.cfg.pmtu, G.cfg.kind, g, variant, dir);
+    vf_distinct("G/%d/%04x/%d/%d/%d/%d/%d", VERID(&G.cfg), G.cfg.suite, G.cfg.pmtu, G.cfg.kind, g, variant, dir);
 }
 
 static void replay_scenario(void *argp)
@@ -813,7 +833,7 @@ static void replay_scenario(void *argp)
         memset(fbuf, '.', sizeof fbuf); fbuf[cs->ndg - 1] = 'x'; fbuf[cs->ndg] = 0; fates = fbuf; }
     sim_init(c, "replay", fates, "", cs->sid);
     G.capture = 1;
-    if (!sim_handshake()) { if (!G.nclauses) vf_incon("replay establishment failed %s %04x %s est %d", mx_vername[c->ver], c->suite, kindname[c->kind], est); return; }
+    if (!sim_handshake()) { if (!G.nclauses) vf_incon("replay establishment failed %s %04x %s est %d", vn(c), c->suite, kindname[c->kind], est); return; }
     G.forceClean = 1;
     if (est == 3) {
         /* four datagrams per direction, delivered in the order 0,2,1,3: records 1 are accepted through the out-of-order branch of the window */
@@ -824,7 +844,7 @@ static void replay_scenario(void *argp)
     else for (int j = 0; j < 3 && !G.failed; j++) { app_send(&G.C, j); sim_settle(6); if (est != 1) { app_send(&G.S, j); sim_settle(6); } }
     if (est == 1) { app_send(&G.C, 3); sim_settle(6); }
     G.capture = 0;
-    if (G.failed || G.nclauses) { if (!G.nclauses) vf_incon("replay establishment data exchange failed %s %04x %s est %d", mx_vername[c->ver], c->suite, kindname[c->kind], est); return; }
+    if (G.failed || G.nclauses) { if (!G.nclauses) vf_incon("replay establishment data exchange failed %s %04x %s est %d", vn(c), c->suite, kindname[c->kind], est); return; }
     if (vf_shard == 0 || vf_case) { vf_stat("replay_scenarios", 1); vf_stat("records_captured", G.ncap); }
     for (int mode = 0; mode < (pairs ? 4 : 3); mode++) for (int rec = 0; rec < G.ncap; rec++) {
         int n2 = mode == 3 ? G.ncap : 1;
@@ -833,12 +853,12 @@ static void replay_scenario(void *argp)
             if (mode == 2 && pos != 1) continue;
             long no = g_rcase++;
             rcase_t rc = { est, mode, rec, rec2, pos, K };
-            snprintf(G.spec, sizeof G.spec, "R/%s/%04x/%d/%s/%s/%s/%d/%d/%d", mx_vername[c->ver], c->suite, c->pmtu, kindname[c->kind], estname[est], modename[mode], rec, rec2, pos);
+            snprintf(G.spec, sizeof G.spec, "R/%s/%04x/%d/%s/%s/%s/%d/%d/%d", vn(c), c->suite, c->pmtu, kindname[c->kind], estname[est], modename[mode], rec, rec2, pos);
             if (onlyspec) { if (strcmp(onlyspec, G.spec)) continue; }
             else if (!vf_mine(no)) continue;
             const cap_t *cp = &G.cap[rec];
             const char *what = cp->type == 23 ? "app" : cp->type == 22 ? (cp->epoch ? "finished" : "handshake") : cp->type == 20 ? "ccs" : "other";
-            snprintf(G.keytail, sizeof G.keytail, "%s:%s:%s:%s", mx_vername[c->ver], famname(c->suite), kindname[c->kind], modename[mode]);
+            snprintf(G.keytail, sizeof G.keytail, "%s:%s:%s:%s", vn(c), famname(c->suite), kindname[c->kind], modename[mode]);
             if ((no % 2111) == 7) vf_sample("replay %s: %s record (type %d epoch %d seq %llu) of %s at position %d/%d", G.spec, what, cp->type, cp->epoch, cp->seq, cp->dir ? "server" : "client", pos, K);
             if (vf_case) { replay_child(&rc); vf_flush(); fflush(NULL); _exit(0); }
             vf_fork_case(replay_child, &rc, "c16-replay", G.spec, 60);
@@ -849,10 +869,10 @@ static void replay_scenario(void *argp)
         for (int v = 0; v < 12; v++) {
             long no = g_rcase++;
             rcase_t rc = { est, 4, g, v, 0, K };
-            snprintf(G.spec, sizeof G.spec, "R/%s/%04x/%d/%s/%s/%s/%d/%d/%d", mx_vername[c->ver], c->suite, c->pmtu, kindname[c->kind], estname[est], modename[4], g, v, 0);
+            snprintf(G.spec, sizeof G.spec, "R/%s/%04x/%d/%s/%s/%s/%d/%d/%d", vn(c), c->suite, c->pmtu, kindname[c->kind], estname[est], modename[4], g, v, 0);
             if (onlyspec) { if (strcmp(onlyspec, G.spec)) continue; }
             else if (!vf_mine(no)) continue;
-            snprintf(G.keytail, sizeof G.keytail, "%s:%s:%s:%s", mx_vername[c->ver], famname(c->suite), kindname[c->kind], modename[4]);
+            snprintf(G.keytail, sizeof G.keytail, "%s:%s:%s:%s", vn(c), famname(c->suite), kindname[c->kind], modename[4]);
             if (g == 33 && v == 0) vf_sample("replay %s: %d application datagrams lost in a row, then the datagram after the gap replayed immediately", G.spec, g);
             if (vf_case) { gap_child(&rc); vf_flush(); fflush(NULL); _exit(0); }
             vf_fork_case(gap_child, &rc, "c16-replay", G.spec, 60);
@@ -870,19 +890,20 @@ static void run_replays(cfgstate_t *cs, int est, int K, int pairs, const char *o
     cfg_activate(cs);
     scn_arg a = { cs, est, K, pairs, onlyspec, g_scenario++, g_gaps };
     char spec[300]; cfg_t *c = &cs->c;
-    snprintf(spec, sizeof spec, "S/%s/%04x/%d/%s/replay-establishment-%s/%s/", mx_vername[c->ver], c->suite, c->pmtu, kindname[c->kind], estname[est], est == 2 ? "(last handshake datagram dropped once)" : "");
+    snprintf(spec, sizeof spec, "S/%s/%04x/%d/%s/replay-establishment-%s/%s/", vn(c), c->suite, c->pmtu, kindname[c->kind], estname[est], est == 2 ? "(last handshake datagram dropped once)" : "");
     if (vf_case) { replay_scenario(&a); return; }
     vf_fork_case(replay_scenario, &a, "c16-replay-establishment", spec, 3000);
 }
 
 /* ================= configurations ================= */
 static cfgstate_t CS[400]; static int nCS;
-static cfgstate_t *cfg_get(int ver, uint16_t suite, int pmtu, int kind)
+static cfgstate_t *cfg_get2(int ver, int sver, uint16_t suite, int pmtu, int kind)
 {
-    for (int i = 0; i < nCS; i++) if (CS[i].c.ver == ver && CS[i].c.suite == suite && CS[i].c.pmtu == pmtu && CS[i].c.kind == kind) return &CS[i];
-    cfgstate_t *cs = &CS[nCS++]; memset(cs, 0, sizeof *cs); cs->c = (cfg_t) { ver, suite, pmtu, kind };
+    for (int i = 0; i < nCS; i++) if (CS[i].c.ver == ver && CS[i].c.sver == sver && CS[i].c.suite == suite && CS[i].c.pmtu == pmtu && CS[i].c.kind == kind) return &CS[i];
+    cfgstate_t *cs = &CS[nCS++]; memset(cs, 0, sizeof *cs); cs->c = (cfg_t) { ver, suite, pmtu, kind, sver };
     return cs;
 }
+static cfgstate_t *cfg_get(int ver, uint16_t suite, int pmtu, int kind) { return cfg_get2(ver, ver, suite, pmtu, kind); }
 static int parse_ver(const char *s) { for (int i = 0; i < MX_NVER; i++) if (!strcmp(s, mx_vername[i])) return i; return -1; }
 static int parse_kind(const char *s) { for (int i = 0; i < NKIND; i++) if (!strcmp(s, kindname[i])) return i; return -1; }
 
@@ -893,9 +914,10 @@ static int run_case_spec(const char *spec)
     char *tok[12]; int nt = 0; char *p = buf;
     while (nt < 12) { tok[nt++] = p; char *q = strchr(p, '/'); if (!q) break; *q = 0; p = q + 1; }
     if (nt < 6) { fprintf(stderr, "bad case spec\n"); return 2; }
-    int ver = parse_ver(tok[1]); uint16_t suite = (uint16_t) strtol(tok[2], NULL, 16); int pmtu = atoi(tok[3]); int kind = parse_kind(tok[4]);
-    if (ver < 0 || kind < 0 || !mx_suite_by_id(suite)) { fprintf(stderr, "bad case spec\n"); return 2; }
-    cfgstate_t *cs = cfg_get(ver, suite, pmtu, kind);
+    char *tilde = strchr(tok[1], '~'); if (tilde) *tilde = 0;
+    int ver = parse_ver(tok[1]), sver = tilde ? parse_ver(tilde + 1) : ver; uint16_t suite = (uint16_t) strtol(tok[2], NULL, 16); int pmtu = atoi(tok[3]); int kind = parse_kind(tok[4]);
+    if (ver < 0 || sver < 0 || kind < 0 || !mx_suite_by_id(suite)) { fprintf(stderr, "bad case spec\n"); return 2; }
+    cfgstate_t *cs = cfg_get2(ver, sver, suite, pmtu, kind);
     mx_entropy_seed(vf_seed * 31 + 7);
     if (tok[0][0] == 'S') {
         g_batchsize = 1;
@@ -922,6 +944,8 @@ int main(int argc, char **argv)
     uint64_t hs = vf_hash(&vf_seed, sizeof vf_seed) ^ (vf_seed << 32);
     vf_rng g; vf_rng_init(&g, hs, 16);
     int ci = 0;
+    /* development aid (not used by the driver): "--mixed-only" runs only the mixed-version configurations and their replays */
+    if (vf_flag("--mixed-only")) goto mixed_pairs;
     /* --- PSK bulk: exhaustive drop patterns --- */
     static const struct { uint16_t suite; int ver; } psk[] = { { 0x008c, MX_DTLS10 }, { 0x008c, MX_DTLS12 }, { 0x00ae, MX_DTLS12 } };
     g_L = T ? 16 : 12; g_delays = 3; g_spsteps = T ? 16 : 10;
@@ -978,6 +1002,55 @@ int main(int argc, char **argv)
         mx_entropy_seed(vf_seed * 31 + ci++); gen_schedules(cs = cfg_get(MX_DTLS10, 0x002f, 1500, kind), T ? 8 : 4, T ? 300 : 6, 1, &g); gen_final_flight(cs, T);
         if (T) { mx_entropy_seed(vf_seed * 31 + ci++); gen_schedules(cs = cfg_get(MX_DTLS12, 0xc02f, 400, kind), 6, 200, 1, &g); gen_final_flight(cs, T);   /* certificate suites need PMTU >= 400: only Certificate is fragmented (PS_MIN_PMTU comment in dtls.c) */ }
     }
+    /* --- mixed-version pairs: the peers enable different version sets and negotiate DTLS 1.0. A client that enables DTLS 1.2 (and with it
+       1.0) writes 1.2 into the record header of both ClientHellos, so every further copy of them (network duplicate, timer retransmission
+       after a lost ServerHello flight, replay) reaches a server that has meanwhile negotiated 1.0; a client that enables only 1.0 makes a
+       1.2-capable server negotiate down. Same schedule classes, oracles and kinds as for peers configured alike; suites that exist in
+       DTLS 1.0 (these configurations are generated after all others, so the cases of the alike-configured peers are what they were) --- */
+mixed_pairs: ;
+    static const struct { int cver, sver; } mixed[] = { { MX_DTLS12, MX_DTLS10 }, { MX_DTLS10, MX_DTLS12 } };
+    for (int mi = 0; mi < 2; mi++) {
+        int cv = mixed[mi].cver, sv = mixed[mi].sver; cfgstate_t *cs;
+        g_L = T ? 16 : 12; g_delays = T ? 3 : 1; g_spsteps = T ? 16 : 10;
+        g_eager_drop_modes = T ? 0xe : 0x8; g_eager_m = T ? 10 : 6; g_eager_singles = T;
+        for (int kind = K_FULL; kind <= K_RESUMED; kind++) {
+            mx_entropy_seed(vf_seed * 31 + ci++);
+            gen_schedules(cs = cfg_get2(cv, sv, 0x008c, 1500, kind), T ? 12 : 7, T ? 1500 : 12, T ? 2 : 1, &g); gen_final_flight(cs, T);
+        }
+        g_eager_drop_modes = 0; g_eager_singles = 0;
+        if (T || mi == 0) { mx_entropy_seed(vf_seed * 31 + ci++); gen_schedules(cs = cfg_get2(cv, sv, 0x008c, 256, K_FULL), T ? 10 : 5, T ? 300 : 4, 1, &g); gen_final_flight(cs, T); }
+        static const uint16_t msuite[] = { 0x002f, 0xc013, 0xc009 };
+        for (int si = 0; si < 3; si++) for (int pi = 0; pi < 3; pi++) for (int kind = 0; kind <= K_CAUTH; kind++) {
+            int ecdhe = msuite[si] >= 0xc000, ecdsa = msuite[si] == 0xc009;
+            if (!T) {
+                /* quick: client 1.2+1.0 / server 1.0: RSA at PMTU 1500 (three kinds) and 400 (full), ECDHE-RSA at 400 (full, client-auth), ECDHE-ECDSA
+                   at 1500 (full); client 1.0 / server 1.2+1.0: RSA at 1500 (full, client-auth), ECDHE-RSA at 400 (full) */
+                int on = mi == 0 ? (si == 0 ? (pi == 0 || (pi == 2 && kind == K_FULL)) : si == 1 ? (pi == 2 && kind != K_RESUMED) : (pi == 0 && kind == K_FULL))
+                                 : (si == 0 ? (pi == 0 && kind != K_RESUMED) : si == 1 ? (pi == 2 && kind == K_FULL) : 0);
+                if (!on) continue;
+                mx_entropy_seed(vf_seed * 31 + ci++);
+                g_L = pi == 0 ? 8 : 12; g_delays = 1; g_spsteps = pi == 0 ? 8 : 12;
+                cs = cfg_get2(cv, sv, msuite[si], pmtus[pi], kind);
+                gen_schedules(cs, ecdhe ? 3 : 4, 3, 1, &g);
+                if (ecdsa) gen_single_drops(cs, 8, 1);
+            } else {
+                if (pi == 1 && si != 0) continue;
+                mx_entropy_seed(vf_seed * 31 + ci++);
+                g_L = pi == 0 ? 12 : 24; g_delays = 3; g_spsteps = pi == 0 ? 12 : 24;
+                g_eager_drop_modes = 0x8; g_eager_m = 5; g_eager_singles = 0;
+                cs = cfg_get2(cv, sv, msuite[si], pmtus[pi], kind);
+                gen_schedules(cs, ecdhe ? 6 : 8, ecdhe ? 100 : 200, pi == 0 ? 2 : 1, &g);
+                if (ecdsa && kind != K_RESUMED) gen_single_drops(cs, pi == 0 ? 10 : 16, 3);
+                g_eager_drop_modes = 0;
+            }
+            gen_final_flight(cs, T);
+        }
+        /* RFC 5077 tickets between such peers (the ticket carries the negotiated version) */
+        if (T || mi == 0) for (int kind = K_TKFULL; kind <= K_TKRES; kind++) {
+            g_L = T ? 16 : 10; g_delays = T ? 3 : 1; g_spsteps = T ? 16 : 8;
+            mx_entropy_seed(vf_seed * 31 + ci++); gen_schedules(cs = cfg_get2(cv, sv, 0x002f, 1500, kind), T ? 8 : 3, T ? 200 : 3, 1, &g); gen_final_flight(cs, T);
+        }
+    }
     g_eager_drop_modes = 0; g_eager_singles = 0;
     batch_flush();
 
@@ -994,12 +1067,20 @@ int main(int argc, char **argv)
         } else if (ecdhe && cs->c.pmtu == 600) continue;
         /* the record layer of the ECDHE-ECDSA suites is that of their ECDHE-RSA twins: one CBC and one GCM representative in the replay phase */
         else if (su->auth == MX_AUTH_ECDSA && !((cs->c.suite == 0xc009 && cs->c.ver == MX_DTLS10) || cs->c.suite == 0xc02b)) continue;
+        /* quick, mixed-version pairs: PSK at PMTU 1500 (client 1.2+1.0 / server 1.0: both kinds, all establishment variants; the other way
+           round: full handshake, first variant) and RSA client 1.2+1.0 / server 1.0 full (two variants) */
+        int mixedcfg = cs->c.sver != cs->c.ver, c12 = cs->c.ver == MX_DTLS12;
+        if (!T && mixedcfg && !(cs->c.pmtu == 1500 && ((isPsk && (c12 || cs->c.kind == K_FULL)) || (cs->c.suite == 0x002f && c12 && cs->c.kind == K_FULL)))) continue;
+        /* thorough, mixed-version pairs: PSK everywhere; RSA at PMTU 1500 (client 1.2+1.0 / server 1.0 also 400) incl. tickets; ECDHE-RSA client
+           1.2+1.0 / server 1.0 at 1500; pair replays only with PSK */
+        if (T && mixedcfg && !(isPsk || (cs->c.suite == 0x002f && (cs->c.pmtu == 1500 || (c12 && cs->c.pmtu == 400))) || (cs->c.suite == 0xc013 && c12 && cs->c.pmtu == 1500))) continue;
         for (int est = 0; est < NEST; est++) {
             if (!T && !isPsk && est >= 2 && cs->c.kind != K_FULL) continue;
+            if (!T && mixedcfg && ((!c12 && est != 0) || (!isPsk && est != 0 && est != 2))) continue;
             mx_entropy_seed(vf_seed * 131 + i * 3 + est);
             /* sequence-number gap family: every suite class at least once in quick (full handshakes), everywhere in thorough */
             g_gaps = T ? 2 : (cs->c.kind == K_FULL && cs->c.pmtu == 1500 ? 1 : 0);
-            run_replays(cs, est, K, T && (isPsk || cs->c.pmtu == 1500), NULL);
+            run_replays(cs, est, K, T && (isPsk || (cs->c.pmtu == 1500 && !mixedcfg)), NULL);
         }
     }
     sim_free();
